@@ -69,12 +69,18 @@ Definition ns_stanzas := bytes_of "urn:ietf:params:xml:ns:xmpp-stanzas".
 Definition ns_forward := bytes_of "urn:xmpp:forward:0".
 Definition ns_delegation := bytes_of "urn:xmpp:delegation:1".
 Definition ns_muc := bytes_of "http://jabber.org/protocol/muc".
+Definition ns_xml := bytes_of "http://www.w3.org/XML/1998/namespace".
+Definition s_xml := bytes_of "xml".
+Definition ns_commands := bytes_of "http://jabber.org/protocol/commands".
+Definition ns_xdata := bytes_of "jabber:x:data".
+Definition s_x := bytes_of "x".
 
 Definition stream_name : name := (ns_stream, s_stream).
 Definition starttls_name : name := (ns_tls, bytes_of "starttls").
 Definition forwarded_name : name := (ns_forward, bytes_of "forwarded").
 Definition delegation_name : name := (ns_delegation, bytes_of "delegation").
 Definition muc_x_name : name := (ns_muc, bytes_of "x").
+Definition command_name : name := (ns_commands, bytes_of "command").
 
 (* the case labels of SMFailed.UnmarshalXML's switch on tt.Name.Local *)
 Definition sm_conditions : list str := map bytes_of
@@ -113,17 +119,24 @@ Inductive result :=
 Definition is_err (p : result) : bool := match p with Err _ => true | _ => false end.
 
 (* ---- attributes ---- *)
-(* "for _, attr := range start.Attr { if attr.Name.Local == X { f = attr.Value } }":
-   the namespace of the attribute is not looked at, the last one wins. *)
-Definition get_attr (local : str) (a : list attr) : str :=
-  fold_left (fun acc (x : attr) => if str_eqb (snd (fst x)) local then snd x else acc) a [].
+Definition is_nil {A} (l : list A) : bool := match l with [] => true | _ => false end.
 
-(* IQ.UnmarshalXML reads no lang (finding D1 of C01); the model and the harness leave the
-   IQ's lang out of the observation so that either state of that defect corresponds. *)
+(* Message / Presence / IQ.UnmarshalXML (after 957396a): an attribute is looked at only if
+   it is UNQUALIFIED (attr.Name.Space == ""), or is lang in the XML namespace (Space "xml"
+   or the XML namespace URI, i.e. xml:lang). *)
+Definition attr_accepted (x : attr) : bool :=
+  let ns := fst (fst x) in
+  is_nil ns || ((str_eqb ns s_xml || str_eqb ns ns_xml) && str_eqb (snd (fst x)) s_lang).
+
+(* "for _, attr := range start.Attr { ...; if attr.Name.Local == X { f = attr.Value } }":
+   among the accepted attributes the last one with that local name wins. *)
+Definition get_attr (local : str) (a : list attr) : str :=
+  fold_left (fun acc (x : attr) =>
+               if attr_accepted x && str_eqb (snd (fst x)) local then snd x else acc) a [].
+
 Definition stanza_attrs (k : kind) (a : list attr) : sattrs :=
   {| a_type := get_attr s_type a; a_id := get_attr s_id a; a_from := get_attr s_from a;
-     a_to := get_attr s_to a;
-     a_lang := match k with KIQ => [] | _ => get_attr s_lang a end |}.
+     a_to := get_attr s_to a; a_lang := get_attr s_lang a |}.
 
 Definition stanza_pkt (k : kind) (a : list attr) : result :=
   match k with
@@ -136,7 +149,6 @@ Definition stanza_pkt (k : kind) (a : list attr) : result :=
 Definition is_digit (c : N) : bool := (48 <=? c) && (c <=? 57).
 Definition all_digits (s : str) : bool := forallb is_digit s.
 Definition dec_val (s : str) : N := fold_left (fun acc c => acc * 10 + (c - 48)) s 0.
-Definition is_nil {A} (l : list A) : bool := match l with [] => true | _ => false end.
 (* strings.TrimSpace restricted to ASCII white space (the generator's values are ASCII) *)
 Definition is_sp (c : N) : bool := ((9 <=? c) && (c <=? 13)) || (c =? 32).
 Fixpoint drop_sp (s : str) : str :=
@@ -250,13 +262,24 @@ Definition muc_ok (inner : list token) : bool :=
              if str_eqb (snd (fst c)) s_history then history_ok (snd c) else true)
           (direct_starts 0 inner).
 
+(* Command.UnmarshalXML decodes EVERY direct child whose local name is "x" into Form, whose
+   XMLName tag demands the namespace jabber:x:data: an <x/> of another namespace fails the
+   whole DecodeElement (finding "command-foreign-x").  Its other children (actions, note,
+   anything else as Node) are consumed whole, so the loop ends at its own end tag only. *)
+Definition command_ok (inner : list token) : bool :=
+  forallb (fun c : name * list attr =>
+             if str_eqb (snd (fst c)) s_x then str_eqb (fst (fst c)) ns_xdata else true)
+          (direct_starts 0 inner).
+
 (* "the registered child is well-typed for its Go struct": content on which DecodeElement
-   into the registered type fails.  Only the MUC history conversions are modelled; for every
-   other registered type the model says "decodes" - an assumption about those types that
+   into the registered type fails.  Only the MUC history conversions and the Form name check
+   of Command are modelled (PubSubEvent / PubSubOwner skip unknown children since ac3889a and
+   consume their element exactly); for every other registered type the model says "decodes" - an assumption about those types that
    the correspondence run validates for the (valid) contents the generator produces. *)
 Definition ext_ok (k : kind) (n : name) (a : list attr) (inner : list token) : bool :=
   match k with
   | KPresence => if name_eqb n muc_x_name then muc_ok inner else true
+  | KIQ => if name_eqb n command_name then command_ok inner else true
   | _ => true
   end.
 
@@ -293,11 +316,14 @@ Definition iq_child : handler := fun n a r =>
 Definition child_of (k : kind) : handler :=
   match k with KIQ => iq_child | _ => stanza_child k end.
 
-(* SMFailed.UnmarshalXML: a listed condition is decoded into its struct, whose XMLName tag
-   demands the namespace urn:ietf:params:xml:ns:xmpp-stanzas; anything else: "error is
-   unknown" (D23) *)
+(* SMFailed.UnmarshalXML: a child whose LOCAL name is a listed condition is decoded into its
+   struct, whose XMLName tag demands the namespace urn:ietf:params:xml:ns:xmpp-stanzas
+   (another namespace: the DecodeElement fails - finding "failed-condition-foreign-ns");
+   any other child is skipped (D23 repaired).  The h attribute is parsed leniently
+   (d770553): no error whatever its value. *)
 Definition failed_child : handler := fun n _ r =>
-  if mem (snd n) sm_conditions && str_eqb (fst n) ns_stanzas then skip r else None.
+  if mem (snd n) sm_conditions then (if str_eqb (fst n) ns_stanzas then skip r else None)
+  else skip r.
 
 (* StreamFeatures (tag-driven): the starttls child runs TlsStartTLS.UnmarshalXML *)
 Definition features_child : handler := fun n _ r =>
@@ -427,14 +453,15 @@ Definition pkts_of (items : list node) : list result :=
 (* hypotheses on a top-level element's content.  Children are ARBITRARY trees except:
    - a child of a stanza that the registry maps to a Go type must be well-typed for that
      type ([ext_ok]; D18),
-   - the children of <failed/> must be listed conditions in the stanzas namespace (D23),
+   - a child of <failed/> whose local name is a listed condition must be in the stanzas
+     namespace,
    and the element's own uint-typed attribute (h, max) must convert. *)
 Definition child_ok (tk : top_kind) (c : node) : bool :=
   match c with
   | NElem n a cs =>
       match tk with
       | TKStanza k => if registered k n then ext_ok k n a (flatten_all cs) else true
-      | TKFailed => mem (snd n) sm_conditions && str_eqb (fst n) ns_stanzas
+      | TKFailed => if mem (snd n) sm_conditions then str_eqb (fst n) ns_stanzas else true
       | _ => true
       end
   | _ => true
